@@ -826,7 +826,7 @@ func genericHandle(a action, root action, queue chan action, sem *tsync.Semaphor
 	}
 
 	for _, t := range a.Triggers() {
-		verifDecBegin(a)
+		verifDecBegin(a, t)
 		last := t.DecrementPending()
 		verifDecEnd(a, t, last)
 		if last {
